@@ -55,6 +55,19 @@ Theorem C01_bytes_scan_to_records : forall es, Forall wf_entry es -> scan dec_en
 Proof. exact scan_file. Qed.
 Print Assumptions C01_bytes_scan_to_records.
 
+(* 5b. ... and the bytes determine the records: equal bytes, equal records; a file whose last record is torn
+       determines its complete records and the torn part (a directory is read in one way only). *)
+Theorem C01_bytes_determine_records : forall es es', Forall wf_entry es -> Forall wf_entry es' -> file_bytes es = file_bytes es' -> es = es'.
+Proof. exact file_bytes_inj. Qed.
+Print Assumptions C01_bytes_determine_records.
+
+Theorem C01_torn_file_determines_records : forall es es' e e' p q p' q',
+  Forall wf_entry es -> Forall wf_entry es' -> wf_entry e -> wf_entry e' -> q <> [] -> q' <> [] ->
+  enc_entry e = p ++ q -> enc_entry e' = p' ++ q' ->
+  file_bytes es ++ p = file_bytes es' ++ p' -> es = es' /\ p = p'.
+Proof. exact torn_file_determines_records. Qed.
+Print Assumptions C01_torn_file_determines_records.
+
 (* Non-vacuity: a 12-operation script over three files with a rollover, a delete, a merge of every
    file and a reopen is ready, and runs to the map's answers. *)
 Definition ex_cfg := mkCfg 60 false 0 1 0 1000000000.
